@@ -50,6 +50,19 @@ def gen_asts(ctx, rng):
     mids = [T.Cm(o, x, y) for o in ctl for x in inner for y in inner]
     mids += [T.Cm(o, T.Cm(o2, a, T.Cm(o3, b, c)), a) for o in ctl for o2 in ctl for o3 in ctl]
     mids += [T.Cm(o, a, T.Cm(o2, b, T.Cm(o3, c, a))) for o in ctl for o2 in ctl for o3 in ctl]
+    # right-nested chains of 3 and 4 operands with a control term at EVERY position (first, middle, last)
+    def chain(o, xs):
+        return xs[0] if len(xs) == 1 else T.Cm(o, xs[0], chain(o, xs[1:]))
+    for o in ctl:
+        for x1 in inner:
+            for x2 in inner:
+                for x3 in inner:
+                    mids.append(chain(o, [x1, x2, x3]))
+        for pos in range(4):
+            for x in inner[1:]:
+                xs = [a, b, c, a]
+                xs[pos] = x
+                mids.append(chain(o, xs))
     for m in mids:
         out.append(m)
         out.append(T.Cm("f", m))
